@@ -1,0 +1,10 @@
+//go:build verif
+
+// Machine-checked contracts for package signxap (comment-only; see /verif/DESIGN.md).
+
+package signxap
+
+//@ func removeSignature
+//@   property C11 C08
+//@   nopanic
+//@   ensures @only_a_trailing_signature_block_is_cut samearr(ret0, cd) && len(ret0) <= len(cd)
